@@ -45,6 +45,143 @@ def _stmt(fn: ast.AST, x: ast.AST) -> ast.stmt:
     return best
 
 
+def _uncast(e: ast.AST) -> ast.AST:
+    while isinstance(e, ast.Call) and call_name(e) == "cast" and len(e.args) == 2:
+        e = e.args[1]
+    return e
+
+
+def _is_leaf_key(e: ast.AST) -> bool:
+    return isinstance(e, ast.UnaryOp) and isinstance(e.op, ast.USub) and isinstance(
+        e.operand, ast.Constant) and e.operand.value == 1
+
+
+def _extend_tree(prog: Program, run: Run, R: str) -> None:
+    """DiagLayer._extend_prefix_tree, structurally: one descent per prefix byte into the child
+    keyed by that byte (created only when missing), then the service stored in the list under
+    key -1 of the node reached, on every path."""
+    h = prog.func("DiagLayer._extend_prefix_tree")
+    C = "DiagLayer._extend_prefix_tree"
+    ps = h.params()
+    if len(ps) < 3:
+        raise AnalysisError(f"{C}: expected (tree, prefix, service)")
+    tree_p, prefix_p, svc_p = ps[-3], ps[-2], ps[-1]
+    trees = {tree_p}
+    for st in walk_no_nested(h.node):
+        if isinstance(st, ast.Assign) and len(st.targets) == 1 and isinstance(
+                st.targets[0], ast.Name):
+            v = _uncast(st.value)
+            if isinstance(v, ast.Name) and v.id in trees:
+                trees.add(st.targets[0].id)
+    loops = [l for l in walk_no_nested(h.node) if isinstance(l, ast.For) and ast.unparse(
+        _uncast(l.iter)) == prefix_p and isinstance(l.target, ast.Name)]
+    if len(loops) != 1:
+        raise AnalysisError(f"{C}: loop over the prefix bytes not found")
+    lp = loops[0]
+    b = lp.target.id
+    cfg = CFG(h.node)
+    bad: List[str] = []
+    descents = []
+    for st in ast.walk(lp):
+        if isinstance(st, ast.Assign) and len(st.targets) == 1 and isinstance(
+                st.targets[0], ast.Name) and st.targets[0].id in trees:
+            v = _uncast(st.value)
+            t = st.targets[0].id
+            if isinstance(v, ast.Subscript) and ast.unparse(v.value) == t and ast.unparse(
+                    v.slice) == b:
+                descents.append(("index", st, t))
+            elif isinstance(v, ast.Call) and isinstance(v.func, ast.Attribute) and \
+                    v.func.attr == "setdefault" and ast.unparse(v.func.value) == t and \
+                    len(v.args) == 2 and ast.unparse(v.args[0]) == b and isinstance(
+                        v.args[1], ast.Dict) and not v.args[1].keys:
+                descents.append(("setdefault", st, t))
+            else:
+                bad.append(f"`{stmt_key(st)}` does not descend into the child keyed by the "
+                           "prefix byte")
+    if len(descents) != 1:
+        bad.append(f"{len(descents)} descents per prefix byte")
+    else:
+        kind, dst, t = descents[0]
+        if cfg.branch_conditions(cfg.node_of(dst)) and any(
+                any(z is dst for z in ast.walk(x)) for x in lp.body if isinstance(x, ast.If)):
+            bad.append("the descent is conditional")
+        creates = [x for x in ast.walk(lp) if isinstance(x, ast.Assign) and isinstance(
+            x.targets[0], ast.Subscript) and ast.unparse(x.targets[0].value) == t and
+            ast.unparse(x.targets[0].slice) == b]
+        if kind == "index":
+            want = norm_test(ast.parse(f"{b} not in {t}", mode="eval").body)
+            if len(creates) != 1 or not (isinstance(creates[0].value, ast.Dict) and
+                                         not creates[0].value.keys):
+                bad.append("a missing child node is not created as an empty node")
+            elif conj_test(path_conditions(cfg, cfg.node_of(creates[0]))) != want:
+                bad.append("child nodes are (re-)created although they exist: services filed "
+                           "under longer prefixes are dropped")
+        elif creates:
+            bad.append("child nodes are overwritten")
+    tvar = descents[0][2] if len(descents) == 1 else None
+    # the leaf: T[-1] / T.get(-1) / T.setdefault(-1, []) and the locals bound to them
+    def leaf_expr(e: ast.AST, names: Set[str]) -> bool:
+        e = _uncast(e)
+        if isinstance(e, ast.Name):
+            return e.id in names
+        if isinstance(e, ast.Subscript):
+            return ast.unparse(e.value) == tvar and _is_leaf_key(e.slice)
+        if isinstance(e, ast.Call) and isinstance(e.func, ast.Attribute) and e.func.attr in (
+                "get", "setdefault") and ast.unparse(e.func.value) == tvar and e.args:
+            return _is_leaf_key(e.args[0])
+        return False
+    after = [st for st in walk_no_nested(h.node) if isinstance(st, ast.stmt) and getattr(
+        st, "lineno", 0) > lp.end_lineno]
+    names: Set[str] = set()
+    for st in after:
+        if isinstance(st, ast.Assign):
+            tg_names = [t_.id for t_ in st.targets if isinstance(t_, ast.Name)]
+            stores_leaf = any(isinstance(t_, ast.Subscript) and leaf_expr(t_, set())
+                              for t_ in st.targets)
+            if tg_names and (leaf_expr(st.value, names) or stores_leaf):
+                names.update(tg_names)
+    stores = []
+    for st in after:
+        if isinstance(st, ast.Assign) and any(isinstance(t_, ast.Subscript) and leaf_expr(
+                t_, set()) for t_ in st.targets) and isinstance(st.value, ast.List) and any(
+                    ast.unparse(e) == svc_p for e in st.value.elts):
+            stores.append(st)
+        if isinstance(st, ast.Expr) and isinstance(st.value, ast.Call) and isinstance(
+                st.value.func, ast.Attribute) and st.value.func.attr == "append" and \
+                leaf_expr(st.value.func.value, names) and len(st.value.args) == 1 and \
+                ast.unparse(st.value.args[0]) == svc_p:
+            stores.append(st)
+        # a fresh list bound to a leaf local must also be stored in the tree
+        if isinstance(st, ast.Assign) and any(isinstance(t_, ast.Name) and t_.id in names
+                                              for t_ in st.targets) and isinstance(
+                                                  _uncast(st.value), ast.List):
+            if not any(isinstance(t_, ast.Subscript) and leaf_expr(t_, set())
+                       for t_ in st.targets):
+                nxt = [x for x in after if isinstance(x, ast.Assign) and any(
+                    isinstance(t_, ast.Subscript) and leaf_expr(t_, set()) for t_ in x.targets)
+                    and leaf_expr(x.value, names)]
+                if not nxt:
+                    bad.append(f"`{stmt_key(st)}`: the fresh list is not stored under the leaf key")
+        # overwriting an existing leaf list loses the services filed before
+        if isinstance(st, ast.Assign) and any(isinstance(t_, ast.Subscript) and leaf_expr(
+                t_, set()) for t_ in st.targets) and isinstance(_uncast(st.value), ast.List):
+            conds = conj_test(path_conditions(cfg, cfg.node_of(st)))
+            if "is None" not in conds and "not in" not in conds:
+                bad.append(f"`{stmt_key(st)}` replaces the list of the node unconditionally: "
+                           "services filed earlier under the same prefix are lost")
+    if tvar is not None:
+        if not stores:
+            bad.append("the service is never stored under the leaf key (-1)")
+        elif not cfg.must_pass(cfg.node_of(lp), [cfg.node_of(x) for x in stores], EXIT):
+            bad.append("there is a path on which the service is not stored")
+    if not bad:
+        run.ok(R, C, "descends byte by byte (creating only missing nodes) and appends the "
+               "service under the leaf key on every path", h.loc)
+    else:
+        run.violation(R, C, "leaf", "services are not appended under the leaf key of the node "
+                      "reached by the prefix bytes: " + "; ".join(bad), h.loc)
+
+
 def check(prog: Program, run: Run) -> None:
     run.rule("C06.R1", "the prefix-tree walk collects the services of every node on the path, "
              "root included", floor=3)
@@ -333,16 +470,7 @@ def _prefixes(prog: Program, run: Run) -> None:
     else:
         run.violation(R, "DiagLayer._prefix_tree", "insert", "prefixes are not inserted for "
                       "their own service", g.loc)
-    h = prog.func("DiagLayer._extend_prefix_tree")
-    s = ast.unparse(h.node)
-    if "sub_tree[-1] = [service]" in s and ".append(service)" in s and \
-            "for b in coded_prefix" in s:
-        run.ok(R, "DiagLayer._extend_prefix_tree", "descends byte by byte and appends the "
-               "service under the leaf key", h.loc)
-    else:
-        run.violation(R, "DiagLayer._extend_prefix_tree", "leaf",
-                      "services are not appended under the leaf key of the node reached by the "
-                      "prefix bytes", h.loc)
+    _extend_tree(prog, run, R)
     # responses are found through the request
     d = prog.func("DiagLayer.decode_response")
     s = ast.unparse(d.node)
